@@ -375,6 +375,12 @@ class Run:
                 return Sz(size_symbol(norm(c)))
             if f.id == "zip" and args:
                 return Sz(self.size_of(args[0], c.args[0]))
+            if f.id == "product" and args and not kwargs:
+                # itertools.product: the size is the product of the sizes of the factors
+                sz = sp.Integer(1)
+                for a_, n_ in zip(args, c.args):
+                    sz = sz * self.size_of(a_, n_)
+                return Sz(sp.expand(sz))
             if f.id in ("map", "_map", "filter") and len(args) >= 2:
                 self.lemmas.append("map/imap yield exactly one result per source item")
                 self._worker_uses_prog(c.args[0], fi)
